@@ -17,11 +17,7 @@ import traceback
 import common
 
 # crash signatures of the unchanged tree that are consequences of recorded findings
-KNOWN_CRASHES = {
-    "TypeError@simulatedorder.py:size_remaining<-simulatedorder.py:_create_place_response":
-        "F4/F7 chain: a request FAILURE re-opens a completed order, the strategy replaces the zombie, the replacement has size 0.0 "
-        "and SimulatedOrder.size_remaining raises TypeError; the whole simulation run dies",
-}
+KNOWN_CRASHES = {}      # (the TypeError of a size-0 replacement order was repaired by fix 369e08f: a recurrence is a violation)
 
 # field indices of an order item in the canonical line (DriverWorld.showOrder)
 OF = dict(id=0, status=1, complete=2, log=3, betid=4, sm=5, avg=6, canc=7, laps=8, void=9, rem=10, piq=11, pers=12, frags=13,
